@@ -92,8 +92,6 @@ Definition inst_active (o : option nat) s := match o with Some j => active j s |
 
 (* ---- the monad ---- *)
 Definition M := st -> res * st.
-Definition ok : M := fun s => (Ok, s).
-Definition raise (e : exn) : M := fun s => (Raise e, s).
 Definition bind (m k : M) : M := fun s => match m s with (Ok, s') => k s' | r => r end.
 (* try: m finally: fin *)
 Definition finally (m fin : M) : M :=
